@@ -33,6 +33,8 @@ CLAIMED = {
             "the model's observation vector is also the specification (the functions are the definitions of the property's notions); immutability, JSON and file round trips are observed only"),
     "C16": ("6 C16", "PARTIAL. Proved on the model: C16_pd / C16_pd_error (the target column holds the scalar results cell by cell, None = NA, all other cells preserved; an error is the first failing cell's), C16_first_error, C16_file_ok (chosen column converted, missing results -> empty cell, header / other columns / row order preserved), C16_file_atomic (if any row fails, at whatever position, the file is unchanged). The scalar methods are the proved query model. Not modelled: pandas and csv -- exercised with real data frames and real files whose bytes are compared after failing calls.",
             "the model is two-phase by construction, like _file_helper; that the real function does not write before it has read everything is what the byte comparison checks"),
+    "C14": ("6 C14", "PARTIAL. Proved: C14_epm / C14_epm_all / C14_epm_fields (Record(**_record_to_dict(r)) = r with sorted synonym lists; pattern '' kept), C14_jsonld (reading the written context, plain or expanded, with or without synonyms, through the loader's term filter gives exactly the written pairs), C14_turtle_string / C14_shacl (backslash escaping is undone by the Turtle short-string lexer for prefix, namespace and pattern over the quantified alphabet), C14_tsv (no quoting, line splits back). Not modelled: json, pathlib, rdflib's Turtle parser and SPARQL engine, csv -- exercised by writing real files with the library's writers and reading them back with its loaders.",
+            "turtle_unescape is a model of rdflib's short-string lexer validated only through the real SHACL round trips"),
 }
 NOT_YET = {}
 
